@@ -279,7 +279,7 @@ def evaluator_sessions(R, batch, tier, stats):
         mini2 = [not m for m in mini]
         problem2 = make_problem(ff, mini2, multi)
 
-        def do_call(evaluator, evname, prob, pmini, pop, ids):
+        def do_call(evaluator, evname, prob, pmini, pop, ids, fresh_problem=False):
             open(logpath, "w").close()
             before = evaluator.number_of_evaluations()
             had = [{"id": ids.of(x), "v": prog_value(x.get_phenotype()), "had": x.has_fitness(prob),
@@ -306,7 +306,9 @@ def evaluator_sessions(R, batch, tier, stats):
             evs.append({"e": "evalcall", "evaluator": evname, "inds": had, "after": after, "exc": exc,
                         "count_before": before, "count_after": evaluator.number_of_evaluations(),
                         "ffcalls": [{"v": c["v"], "ret": c["ret"]} for c in calls], "yielded": yielded,
-                        "npids": len({c["pid"] for c in calls}), "mini": [bool(m) for m in pmini]})
+                        "npids": len({c["pid"] for c in calls}), "mini": [bool(m) for m in pmini],
+                        # what the DRIVER knows: this problem object was created a moment ago and never evaluated anything
+                        "fresh_problem": bool(fresh_problem)})
             return [a["comps"] for a in after]
 
         for evname in ("seq", "par"):
@@ -341,6 +343,8 @@ def evaluator_sessions(R, batch, tier, stats):
         SequentialEvaluator().evaluate(p4, inds4)
         addr = id(p4)
         del p4
+        import gc as _gc
+        _gc.collect()           # (a multi-objective problem sits in a reference cycle with its own closures)
         hold, p5 = [], None
         for _ in range(40):
             cand = make_problem(ff, mini, multi)
@@ -350,7 +354,7 @@ def evaluator_sessions(R, batch, tier, stats):
             hold.append(cand)
         if p5 is None:
             p5 = hold[-1]
-        do_call(SequentialEvaluator(), "seq", p5, mini, inds4 + [inds4[0]], Ids())
+        do_call(SequentialEvaluator(), "seq", p5, mini, inds4 + [inds4[0]], Ids(), fresh_problem=True)
         del hold
         if multi:
             # a LAZY problem (one bool for all components) whose very first evaluation is made by the pool
